@@ -552,8 +552,10 @@ def run(ck: common.Check):
                "corruptions (a quarter with a missing mask) + a sample of the in-domain cases through validate_data under all 16 "
                "configs that enable tracklet on geffs declaring tracklet AND lineage ids, x {valid, corrupted} lineage labelling; non-trivial = at least one edge or two ids; distinct = "
                "distinct canonical JSON")
-    cases = list(corpus())
-    n_corpus = len(cases)
+    corpus_all = list(corpus())
+    grid_corpus = [c for c in corpus_all if "lineage_labels" in c]     # regression inputs of the all-configs grid
+    cases = [c for c in corpus_all if "lineage_labels" not in c]
+    n_corpus = len(corpus_all)
     for n in range(0, 5):
         cases.extend(exhaustive(n))
     ck.extra["exhaustive_labelled_dags_upto_nodes"] = 4
@@ -612,6 +614,11 @@ def run(ck: common.Check):
     want_n = 1000 if ck.quick else 8000
     step = max(1, len(pool) // want_n)
     items, meta_items = [], []
+    for gc in grid_corpus:
+        c = {k: v for k, v in gc.items() if k not in ("lineage_labels", "cfg_bits")}
+        lv, _ = lineage_oracle({"nodes": c["nodes"], "labels": gc["lineage_labels"], "edges": c["edges"], "missing": None})
+        items.append((c, gc["lineage_labels"]))
+        meta_items.append(lv)
     for j, c in enumerate(pool[::step]):
         good, bad = lineage_labellings(c, f"{ck.seed}:{j}")
         for lin in (good, bad):
